@@ -390,6 +390,8 @@ func (m *Manager) CreateTCPConnection( // nolint: cyclop
 
 	m.lock.Lock()
 	if m.isDupeTCPConnection(allocation, remoteAddr) {
+		m.lock.Unlock()
+
 		return 0, ErrDupeTCPConnection
 	}
 	m.lock.Unlock()
